@@ -111,7 +111,11 @@ func (s *Server) handleService(ctx context.Context, sc *uasc.SecureChannel, reqI
 	typeID := ua.ServiceTypeID(req)
 	h, ok := s.handlers[typeID]
 	if ok {
-		if err = s.checkSession(typeID, req); err == nil {
+		err = s.checkChannel(typeID, sc)
+		if err == nil {
+			err = s.checkSession(typeID, req)
+		}
+		if err == nil {
 			resp, err = h(sc, req, reqID)
 		}
 	} else {
@@ -147,18 +151,42 @@ func (s *Server) handleService(ctx context.Context, sc *uasc.SecureChannel, reqI
 // Discovery does not need a session, and the services which set a session up and
 // tear it down look up the session named by the request on their own.
 func sessionRequired(typeID uint16) bool {
+	if discoveryService(typeID) {
+		return false
+	}
 	switch typeID {
-	case id.FindServersRequest_Encoding_DefaultBinary,
-		id.FindServersOnNetworkRequest_Encoding_DefaultBinary,
-		id.GetEndpointsRequest_Encoding_DefaultBinary,
-		id.RegisterServerRequest_Encoding_DefaultBinary,
-		id.RegisterServer2Request_Encoding_DefaultBinary,
-		id.CreateSessionRequest_Encoding_DefaultBinary,
+	case id.CreateSessionRequest_Encoding_DefaultBinary,
 		id.ActivateSessionRequest_Encoding_DefaultBinary,
 		id.CloseSessionRequest_Encoding_DefaultBinary:
 		return false
 	}
 	return true
+}
+
+// discoveryService reports whether the service belongs to the Discovery Service Set,
+// which is served without a session and over a secure channel of any accepted security.
+func discoveryService(typeID uint16) bool {
+	switch typeID {
+	case id.FindServersRequest_Encoding_DefaultBinary,
+		id.FindServersOnNetworkRequest_Encoding_DefaultBinary,
+		id.GetEndpointsRequest_Encoding_DefaultBinary,
+		id.RegisterServerRequest_Encoding_DefaultBinary,
+		id.RegisterServer2Request_Encoding_DefaultBinary:
+		return true
+	}
+	return false
+}
+
+// checkChannel returns an error if the service may not be used over the secure
+// channel: everything but discovery needs one of the enabled security settings.
+func (s *Server) checkChannel(typeID uint16, sc *uasc.SecureChannel) error {
+	if discoveryService(typeID) || sc == nil {
+		return nil
+	}
+	if !s.cfg.securityEnabled(sc.SecurityPolicyURI(), sc.SecurityMode()) {
+		return ua.StatusBadSecurityPolicyRejected
+	}
+	return nil
 }
 
 // checkSession returns an error if the service needs an activated session and
